@@ -349,3 +349,16 @@ SPECS["C14"]["level_text"] = ("proved (AKAI): the file-table scan keeps the alig
     "the name/type/size/start fields where the independent table puts them. The construct parsers the loop drives are replaced by ASSUMED effect contracts. " + SPECS["C14"]["level_text"])
 SPECS["C14"]["level_note"] = "trusted: pyvc engine, z3, assumed effect contracts of Struct.parse_stream / Int16ul.parse_stream / sizeof / Lazy; the Roland half and the lazy per-file error swallowing are bounded only"
 SPECS["C13"]["contracts"].append("smpl_extract.akai.file_entry:FileEntriesAdapter._parse")
+
+_NAMING = ["smpl_extract.structural:Image.make_export_name", "smpl_extract.structural:Image._add_count_to_name", "lemma:safe_component_is_confined"]
+SPECS["C06"]["contracts"] = _NAMING
+SPECS["C06"]["level"] = "proof"
+SPECS["C06"]["level_text"] = ("proved with z3's string/regex theory over ALL ASCII names (patterns translated mechanically from the live compiled regex objects; "
+    "sub / strip / match-group semantics as stated assumed contracts of `re` and `str`): make_export_name returns a non-empty name made only of word characters, "
+    "space - . # that begins with a word character and does not end in a space (directories: nor in a dot or hyphen); _add_count_to_name keeps a safe "
+    "component safe and carries the counter; a safe component contains no path separator and is not '.'/'..' (so joining components stays inside the "
+    "destination - os.path.join assumed). NOT proved: uniqueness of the assigned names (sanitize_names_general / combine_stereo_routine work on "
+    "dictionaries keyed by symbolic strings) - that half is the bounded monitor. " + SPECS["C06"]["level_text"])
+SPECS["C06"]["level_note"] = "trusted: pyvc engine, z3 sequence/regex theory, regex translation (re._parser), assumed semantics of Pattern.sub for `[class]+`, str.strip, match decomposition and lazy-group minimality (suffix-closure checked by z3); make_safe_name assumed pure; uniqueness is bounded only"
+SPECS["C06"]["not_covered"] = ["uniqueness of assigned names as a contract", "Roland names", "os.path.join / makedirs"]
+SPECS["C10"]["contracts"] = _NAMING[:2]
